@@ -170,13 +170,9 @@ static void FuncFIRSTBIT(TempResult* pResult, TempResult const* pArgs, unsigned 
 
     UNUSED(ArgCnt);
 
-    out = 0;
-    do {
-        if (!Odd(in)) {
-            out++;
-        }
+    for (out = 0; (out < LARGEBITS) && !Odd(in); out++) {
         in >>= 1;
-    } while ((out < LARGEBITS) && !Odd(in));
+    }
     as_tempres_set_int(pResult, (out >= LARGEBITS) ? -1 : out);
 }
 
